@@ -8,6 +8,7 @@
 package wire
 
 //@ func funcOutput
+//@   ensures result.1 == nil ==> result.0.out != nil
 //@   ensures [C09] sig.Results().Len() == 0 ==> result.1 != nil
 //@   ensures [C09] sig.Results().Len() == 1 ==> result.1 == nil && result.0.out == sig.Results().At(0).Type() && !result.0.cleanup && !result.0.err
 //@   ensures [C09] sig.Results().Len() == 2 && tid(sig.Results().At(1).Type()) == tid(errorType) ==> result.1 == nil && result.0.out == sig.Results().At(0).Type() && !result.0.cleanup && result.0.err
@@ -473,6 +474,11 @@ package wire
 //@   ensures result.1 == nil ==> result.0 != nil
 //@ func processStructProvider
 //@   ensures result.1 == nil ==> result.0 != nil
+//@   loop 1 invariant forall k :: 0 <= k && k < len(provider.Args) ==> provider.Args[k].Type != nil
+//@   loop 2 invariant 1 <= i && i - 1 <= len(provider.Args) && len(provider.Args) == len(call.Args) - 1
+//@   loop 2 invariant forall k :: 0 <= k && k < i - 1 ==> provider.Args[k].Type != nil
+//@   loop 3 invariant forall k :: 0 <= k && k < len(provider.Args) ==> provider.Args[k].Type != nil
+//@   loop 4 invariant forall k :: 0 <= k && k < len(provider.Args) ==> provider.Args[k].Type != nil
 //@ func checkField
 //@   ensures result.1 == nil ==> result.0 != nil
 
@@ -488,7 +494,7 @@ package wire
 //@ func (*gen).qualifyImport$1
 //@   requires g != nil
 //@ func (*gen).rewritePkgRefs
-//@   requires node != nil
+//@   requires node != nil && !(node is *ast.File) && !(node is *ast.Package)
 //@ func (*gen).rewritePkgRefs$1
 //@   requires g != nil && info != nil
 //@ func (*gen).rewritePkgRefs$3
@@ -508,6 +514,7 @@ package wire
 //@   callsback qf
 //@   requires t != nil
 //@ func injectorFuncSignature
+//@   ensures result.2 == nil ==> result.1.out != nil
 //@   ensures result.2 == nil ==> result.0 != nil && okSig(sig)
 // What the front end hands to processNewSet: one of the five item kinds; provider sets carry their maps.
 //@ define validItem(x interface{}) = (x is *Provider) || ((x is *ProviderSet) && x.(*ProviderSet).providerMap != nil && x.(*ProviderSet).srcMap != nil) || (x is *IfaceBinding) || (x is *Value) || (x is []*Field)
@@ -529,7 +536,9 @@ package wire
 //@   ensures [C02] len(result.1) == 0 && args != nil ==> provArgs(result.0.providerMap, args.Tuple, args.Tuple.Len())
 //@   loop 1 invariant ec != nil && pset != nil && forall k :: 0 <= k && k < len(pset.Imports) ==> pset.Imports[k].providerMap != nil && pset.Imports[k].srcMap != nil
 //@ func (*gen).writeAST
-//@   requires node != nil
+//@   requires node != nil && !(node is *ast.File) && !(node is *ast.Package)
+//@ func (*objectCache).varDecl
+//@   requires obj != nil && obj.Pkg() != nil
 //@ func unexport
 //@   loop 1 invariant 0 <= i && 0 <= sz && i + sz <= len(name)
 //@ func processFuncProvider
@@ -682,3 +691,10 @@ package wire
 //@   ensures len(result) == len(idents) && (result != nil ==> fresh(result))
 //@   ensures forall i :: 0 <= i && i < len(idents) ==> box(result[i]) == m[box(idents[i])]
 //@   loop 1 invariant forall j :: 0 <= j && j < done ==> newIdents[j] != nil && box(newIdents[j]) == m[box(idents[j])]
+
+// errors.go: wrapping keeps the number of errors (so "no errors" is preserved by the wrappers).
+//@ func mapErrors
+//@   callsback f
+//@   ensures len(result) == len(errs)
+//@ func notePositionAll
+//@   ensures len(result) == len(errs)
